@@ -24,12 +24,12 @@ theorem inv_run (sched : List (Tid × Lab)) : LockInv (run {} sched) ∧ DataInv
 theorem sink_mutex (sched : List (Tid × Lab)) (t u : Tid) (h : Hid) (m m' : Nat) (td td' wr wr' : List Hid)
     (ht : (run {} sched).pc t = .e3 m h td wr) (hu : (run {} sched).pc u = .e3 m' h td' wr') : t = u := by
   have hl := (inv_run sched).1
-  exact (h_excl hl (x := h) (by rw [ht]; rfl) (by rw [hu]; rfl)).symm
+  exact (h_excl hl (x := h) (by rw [ht]; simp [heldH]) (by rw [hu]; simp [heldH])).symm
 
 /-- the handler lock is held by the writer for the whole duration of the write -/
 theorem writer_holds_lock (sched : List (Tid × Lab)) (t : Tid) (h : Hid) (m : Nat) (td wr : List Hid)
     (ht : (run {} sched).pc t = .e3 m h td wr) : ((run {} sched).hs h).lock = some t :=
-  (inv_run sched).1.h1 t h (by rw [ht]; rfl)
+  (inv_run sched).1.h1 t h (by rw [ht]; simp [heldH])
 
 /-- handler identifiers are never reused -/
 theorem ids_unique (sched : List (Tid × Lab)) : (run {} sched).allocated.Nodup :=
@@ -78,7 +78,7 @@ def blocked (s : St) (t : Tid) : Prop :=
   (waitsCore (s.pc t) = true ∧ s.coreLock ≠ none) ∨ (∃ h, waitsH (s.pc t) = some h ∧ (s.hs h).lock ≠ none)
 
 /-- a thread in the middle of an operation that is not waiting for a held lock can always move -/
-theorem progress (s : St) (t : Tid) (hmid : s.pc t ≠ .idle) (hnb : ¬ blocked s t) :
+theorem progress (s : St) (t : Tid) (hnd : s.pub.Nodup) (hmid : s.pc t ≠ .idle) (hnb : ¬ blocked s t) :
     ∃ lab, (step s t lab).isSome = true := by
   unfold blocked at hnb
   simp only [not_or, not_and, not_exists, Decidable.not_not] at hnb
@@ -96,6 +96,19 @@ theorem progress (s : St) (t : Tid) (hmid : s.pc t ≠ .idle) (hnb : ¬ blocked 
   | a8 n => exact ⟨.relCore, by simp [step, hp]⟩
   | r0 tgt => exact ⟨.acqCore, by simp [step, hp, hc (by rw [hp]; rfl)]⟩
   | o0 => exact ⟨.acqCore, by simp [step, hp, hc (by rw [hp]; rfl)]⟩
+  | k0 => exact ⟨.forkAcq s.pub, by simp [step, hp, hc (by rw [hp]; rfl), hnd]⟩
+  | k1 todo got =>
+    cases todo with
+    | nil => exact ⟨.forked, by simp [step, hp]⟩
+    | cons h td => exact ⟨.acqH h, by simp [step, hp, hh h (by rw [hp]; rfl)]⟩
+  | k2 got =>
+    cases got with
+    | nil => exact ⟨.relCore, by simp [step, hp]⟩
+    | cons h g => exact ⟨.relH h, by simp [step, hp]⟩
+  | k3 got =>
+    cases got with
+    | nil => exact ⟨.relCore, by simp [step, hp]⟩
+    | cons h g => exact ⟨.relH h, by simp [step, hp]⟩
   | o1 => exact ⟨.relCore, by simp [step, hp]⟩
   | r1 tgt =>
     cases tgt with
@@ -131,47 +144,87 @@ theorem progress (s : St) (t : Tid) (hmid : s.pc t ≠ .idle) (hnb : ¬ blocked 
   | e3 m h todo wr => exact ⟨.wEnd h, by simp [step, hp]⟩
   | e4 m h todo wr => exact ⟨.relH h, by simp [step, hp]⟩
 
-/-- holders of a handler lock never wait for anything -/
-theorem handler_holder_not_blocked (s : St) (u : Tid) (h : Hid) (hu : holdsH (s.pc u) = some h) :
-    ¬ blocked s u ∧ s.pc u ≠ .idle := by
+/-- a thread that holds a handler lock waits for nothing – unless it is a forking thread (k1), which
+may wait for the next handler lock of its list -/
+theorem handler_holder_not_blocked (s : St) (u : Tid) (h : Hid) (hu : h ∈ heldH (s.pc u))
+    (hk : ∀ td g, s.pc u ≠ .k1 td g) : ¬ blocked s u ∧ s.pc u ≠ .idle := by
   unfold blocked
-  cases hp : s.pc u <;> rw [hp] at hu <;> simp [holdsH, waitsCore, waitsH] at hu ⊢
+  cases hp : s.pc u <;> rw [hp] at hu <;> simp [heldH, waitsCore, waitsH] at hu ⊢
+  exact absurd hp (hk _ _)
 
 /-- NO DEADLOCK: in every reachable state in which some thread is in the middle of an operation,
-some thread that is in the middle of an operation has an enabled transition (lock order
-core → handler; a thread holding a handler lock requests nothing). -/
+some thread that is in the middle of an operation has an enabled transition.  Lock order: core lock,
+then handler locks; `emit`/`stop` hold at most one handler lock and request nothing more; a forking
+thread holds the core lock while it collects handler locks, so at most one thread ever waits for a
+handler lock while holding another. -/
 theorem no_deadlock (sched : List (Tid × Lab)) (t : Tid) (hmid : (run {} sched).pc t ≠ .idle) :
     ∃ u lab, (run {} sched).pc u ≠ .idle ∧ (step (run {} sched) u lab).isSome = true := by
   have hl := (inv_run sched).1
+  have hd := (inv_run sched).2
   generalize run {} sched = s at *
-  by_cases hb : blocked s t
-  · -- t waits for a lock: follow the holder
-    have handler : ∀ h w, (s.hs h).lock = some w → ∃ u lab, s.pc u ≠ .idle ∧ (step s u lab).isSome = true := by
-      intro h w hw
-      have hh := hl.h2 w h hw
-      obtain ⟨nb, ni⟩ := handler_holder_not_blocked s w h hh
-      obtain ⟨lab, hs⟩ := progress s w ni nb
+  have hnd : s.pub.Nodup := hd.pubnd
+  -- the holder of a handler lock can move, or is the (unique) forking thread, whose own wait is for a
+  -- lock held by a non-forking thread
+  have handler : ∀ h w, (s.hs h).lock = some w → ∃ u lab, s.pc u ≠ .idle ∧ (step s u lab).isSome = true := by
+    intro h w hw
+    have hh := hl.h2 w h hw
+    cases hpw : s.pc w with
+    | k1 td g =>
+      -- w is forking: it holds the core lock
+      have ni : s.pc w ≠ .idle := by rw [hpw]; simp
+      by_cases hbw : blocked s w
+      · rcases hbw with ⟨hwc, _⟩ | ⟨h2, hw2, hlk⟩
+        · rw [hpw] at hwc; simp [waitsCore] at hwc
+        · cases hl2 : (s.hs h2).lock with
+          | none => exact absurd hl2 hlk
+          | some v =>
+            have hv := hl.h2 v h2 hl2
+            -- v is not a forking thread: only one thread holds the core lock
+            have hkv : ∀ td g, s.pc v ≠ .k1 td g := by
+              intro td' g' hpv
+              have cw : holdsCore (s.pc w) = true := by rw [hpw]; rfl
+              have cv : holdsCore (s.pc v) = true := by rw [hpv]; rfl
+              have e := core_excl hl cw cv
+              subst e
+              -- v = w would already hold the lock it is waiting for: impossible (todo ∩ got = ∅)
+              rw [hpw] at hw2 hv
+              cases td with
+              | nil => simp [waitsH] at hw2
+              | cons a td2 =>
+                simp [waitsH] at hw2; subst hw2
+                have := (hd.pcs v); rw [hpw] at this
+                simp only [pcInv] at this
+                simp [heldH] at hv
+                exact this.2.2.2.2 a (by simp) hv
+            obtain ⟨nb, ni2⟩ := handler_holder_not_blocked s v h2 hv hkv
+            obtain ⟨lab, hs⟩ := progress s v hnd ni2 nb
+            exact ⟨v, lab, ni2, hs⟩
+      · obtain ⟨lab, hs⟩ := progress s w hnd ni hbw
+        exact ⟨w, lab, ni, hs⟩
+    | _ =>
+      have hk : ∀ td g, s.pc w ≠ .k1 td g := by intro td g e; rw [hpw] at e; cases e
+      obtain ⟨nb, ni⟩ := handler_holder_not_blocked s w h hh hk
+      obtain ⟨lab, hs⟩ := progress s w hnd ni nb
       exact ⟨w, lab, ni, hs⟩
-    rcases hb with ⟨_, hc⟩ | ⟨h, _, hlk⟩
-    · -- waits for the core lock: its holder w is in a core-holding pc
-      cases hcl : s.coreLock with
+  by_cases hb : blocked s t
+  · rcases hb with ⟨_, hc⟩ | ⟨h, _, hlk⟩
+    · cases hcl : s.coreLock with
       | none => exact absurd hcl hc
       | some w =>
         have hw := hl.c2 w hcl
         have ni : s.pc w ≠ .idle := by intro e; rw [e] at hw; simp [holdsCore] at hw
         by_cases hbw : blocked s w
         · rcases hbw with ⟨hwc, _⟩ | ⟨h, _, hlk⟩
-          · -- a core holder never waits for the core lock
-            exfalso; cases hp : s.pc w <;> rw [hp] at hw hwc <;> simp [holdsCore, waitsCore] at hw hwc
+          · exfalso; cases hp : s.pc w <;> rw [hp] at hw hwc <;> simp [holdsCore, waitsCore] at hw hwc
           · cases hl2 : (s.hs h).lock with
             | none => exact absurd hl2 hlk
             | some v => exact handler h v hl2
-        · obtain ⟨lab, hs⟩ := progress s w ni hbw
+        · obtain ⟨lab, hs⟩ := progress s w hnd ni hbw
           exact ⟨w, lab, ni, hs⟩
     · cases hl2 : (s.hs h).lock with
       | none => exact absurd hl2 hlk
       | some v => exact handler h v hl2
-  · obtain ⟨lab, hs⟩ := progress s t hmid hb
+  · obtain ⟨lab, hs⟩ := progress s t hnd hmid hb
     exact ⟨t, lab, hmid, hs⟩
 
 /-- non-vacuity: a concrete schedule in which a log call of thread 1 is overtaken by remove(0) of
